@@ -8,6 +8,7 @@ import (
 	"net/url"
 	"strings"
 
+	"github.com/nuts-foundation/go-did/did"
 	"github.com/nuts-foundation/go-did/vc"
 	"github.com/nuts-foundation/nuts-node/audit"
 	"github.com/nuts-foundation/nuts-node/auth"
@@ -211,6 +212,76 @@ func judgeOwned(r *ev.Run, nc nodeCase, c nodeCfg, owned map[string]ownedObs, fl
 		}
 		if p[2] != "public" {
 			r.Violation("C20|outbound|non-public-host|node:iam.RequestRFC021AccessToken:"+p[0]+sfx, fmt.Sprintf("strict mode on: the node's IAM client called the %s named by remote metadata on a %s host (%s): %s", p[0], p[2], p[3], ev.Key(c)), nc)
+		}
+	}
+}
+
+// globalClientProbes: the whole caller battery of outbound_test.go (every constructor of the strict HTTP client and every caller
+// wrapping one) is driven once more while THIS node runs, against whatever process-wide state the node's own start-up left behind
+// (http/client.StrictMode, the default caching transport) — the harness does not set that state here. One plain-http request and one
+// https -> 302 -> http redirect per caller.
+func globalClientProbes(c nodeCfg) map[string]ownedObs {
+	l := theLab()
+	out := map[string]ownedObs{}
+	var names []string
+	for v := range vias {
+		names = append(names, v)
+	}
+	sortStrings(names)
+	for _, via := range names {
+		var o ownedObs
+		for i, beh := range []string{"ok", "r302-same-http"} {
+			scheme := "http"
+			if i == 1 {
+				scheme = "https"
+			}
+			if via == "didweb.Resolve" && i == 0 {
+				continue // a did:web identifier cannot express plain http
+			}
+			n := nextNonce()
+			u := fmt.Sprintf("%s://%s/%s/%s/x", scheme, hostOrigin, n, beh)
+			id := did.DID{}
+			if via == "didweb.Resolve" {
+				id = did.MustParseDID(fmt.Sprintf("did:web:%s:%s:%s:x", hostOrigin, n, beh))
+			}
+			ctx, cancel := context.WithTimeout(context.Background(), 2*outTimeout)
+			l.Take()
+			var err error
+			func() {
+				defer func() {
+					if p := recover(); p != nil {
+						err = fmt.Errorf("PANIC: %v", p)
+					}
+				}()
+				err = vias[via](ctx, c.Strict, u, id)
+			}()
+			cancel()
+			hits, _ := l.Take()
+			if i == 0 {
+				o.Plain = countPlain(hits, "/"+n+"/")
+				if err != nil {
+					o.Err = err.Error()
+				}
+			} else {
+				o.Redirect = countPlain(hits, "/"+n+"/")
+			}
+		}
+		out[via] = o
+	}
+	return out
+}
+
+func judgeGlobal(r *ev.Run, nc nodeCase, c nodeCfg, global map[string]ownedObs, sfx string) {
+	for via, o := range global {
+		r.Outcome(fmt.Sprintf("caller %s while the node runs, strict=%v: plain=%v redirect-to-http=%v", via, c.Strict, o.Plain > 0, o.Redirect > 0))
+		if !c.Strict {
+			continue
+		}
+		if o.Plain > 0 {
+			r.Violation("C20|outbound|plain-http|running-node:"+via+sfx, fmt.Sprintf("strict mode on: while the assembled node runs, %s sends a plain-http request (the node's start-up did not arm the strict HTTP client): %s %s", via, ev.Key(c), nc.Flag), nc)
+		}
+		if o.Redirect > 0 {
+			r.Violation("C20|outbound|redirect-to-http|running-node:"+via+sfx, fmt.Sprintf("strict mode on: while the assembled node runs, %s follows a redirect from https to plain http: %s %s", via, ev.Key(c), nc.Flag), nc)
 		}
 	}
 }
